@@ -625,7 +625,10 @@ void op_validate_t(Cur &c, Out &o)
         ends[p] = 100 + (ndistinct ? (nstart + p) % ndistinct : 0);
     const double S = -12345.678;
     std::vector<double> aff(naff, S), ud(usize, S);
-    Matrix<double> u(usize, 1, ud), v(3, 2, std::vector<double>(6, S));
+    // shaped N x (usize/N) as both front ends do whenever that is possible
+    const size_t urows = (ndistinct && usize % ndistinct == 0 && usize) ? ndistinct : usize;
+    const size_t ucols = urows ? usize / urows : 1;
+    Matrix<double> u(urows, ucols, ud), v(3, 2, std::vector<double>(6, S));
     std::vector<size_t> labels(3, 777);
     utils::RandomGenerator<> rng{(std::time_t)1};
     auto untouched = [&]() {
@@ -633,7 +636,7 @@ void op_validate_t(Cur &c, Out &o)
             return false;
         if (aff != std::vector<double>(naff, S))
             return false;
-        if (u.get_data() != ud || u.get_nrows() != usize || u.get_ncols() != 1)
+        if (u.get_data() != ud || u.get_nrows() != urows || u.get_ncols() != ucols)
             return false;
         if (v.get_data() != std::vector<double>(6, S) || v.get_nrows() != 3 || v.get_ncols() != 2)
             return false;
